@@ -82,6 +82,21 @@ def gen_c01(rnd, n, thorough=False):
                 tags['ops']['jump'] = tags['ops'].get('jump', 0) + 1
             _observe(rnd, lines, layout, list(range(0, a + 1)), now, nwin=3)
         cases.append({'id': 'c01-%d' % c, 'lines': lines, 'tags': tags})
+    # dense batches that run over the end of the ring exactly at (and next to) a multiple of a chunk of slots
+    # (a page of 4096 bytes holds 341 slots and a bit; other plausible chunk sizes): every point lands in its slot
+    for j, chunk in enumerate([341, rnd.pick([170, 256, 512, 682, 1024, 1365])]):
+        N = 2 * chunk + rnd.randint(20, 60)
+        t0 = 1700000000 + rnd.randint(0, 10 ** 6)
+        kk = rnd.pick([1, 1, 2])
+        i0 = N - kk * chunk + (0 if j == 0 else rnd.pick([0, 0, 1, -1]))
+        cnt = kk * chunk + rnd.randint(2, 15)
+        nw = t0 + i0 + cnt - 1
+        pts = [(t0 + i0 + q, fbits(float(q % 97))) for q in range(cnt)]
+        if rnd.chance(0.5):
+            pts.reverse()
+        lines = ["create f 1 1 %d m 2 x 3f000000" % N, "upd f 0 %d %016x %d" % (t0, fbits(5.0), t0), _many('f', rnd.pick([0, -1]), nw, pts),
+                 "fetch f 0 %d %d %d" % (nw - N, nw, nw), "sync f", "open f", "fetch f 0 %d %d %d" % (nw - N, nw, nw)]
+        cases.append({'id': 'c01-chunkwrap-%d' % j, 'lines': lines, 'tags': {'layout': 'ring%d' % N, 'levels': 1, 'target': 0, 'ops': {'chunk_wrap': 1}}})
     # two files created from ONE archive list value (as a command creating several destinations does), written
     # one after the other at different ring positions: each file holds its own writes, also for a fresh handle
     for j in range(6):
@@ -568,11 +583,12 @@ def gen_c05(rnd, n, thorough=False):
     return cases
 
 
-def clockify(lines):
+def clockify(lines, rnd=None):
     """The same history through the calls that read the clock: the library's clock (whispertool.Now) is
     set to each operation's instant; best-archive calls become Update / UpdateMany / Fetch, calls naming
     an archive get a now argument of 0."""
     out, cur = [], None
+    step = 0 if rnd is None else rnd.pick([0, 0, 1, 1, 2, 60])
     for l in lines:
         tk = l.split()
         if tk[0] in ('upd', 'fetch') and len(tk) == 6:
@@ -586,8 +602,9 @@ def clockify(lines):
             out.append(l)
             continue
         if now != cur:
-            out.append("setclock %d" % now)
+            out.append(("setclock %d %d" % (now, step)) if step else ("setclock %d" % now))
             cur = now
+        cur += step          # the call reads the clock once; the next reading shows step seconds more
         if tk[0] == 'upd':
             out.append("wupd f %s %s" % (tk[3], tk[4]) if tk[2] == '-1' else "upd f %s %s %s 0" % (tk[2], tk[3], tk[4]))
         elif tk[0] == 'fetch':
@@ -602,7 +619,7 @@ def with_clock_variants(gen, share=0.25):
         cases = gen(rnd, n, thorough)
         for cs in cases:
             if cs['lines'] and cs['lines'][0].startswith('create f ') and len(cs['lines']) < 400 and rnd.chance(share):
-                cs['lines'] = clockify(cs['lines'])
+                cs['lines'] = clockify(cs['lines'], rnd)
                 cs['tags']['clock'] = 'library_clock'
         return cases
     return g
